@@ -467,7 +467,7 @@ def correspond(ctx):
             mreg = {k: v for k, v in mreg_out[1:]}
             lines, idx = [], []
             for i, m in enumerate(w.meta):
-                if not ascii_ok(json.dumps(m, default=str)):
+                if not ascii_ok(json.dumps(m, default=str, ensure_ascii=False)):
                     ctx.count("skipped_non_ascii")
                     continue
                 if m["op"] == "read":
@@ -587,7 +587,7 @@ def oracle(ctx):
         for w in ws:
             impl = w.run()
             for m, got in zip(w.meta, impl):
-                if not ascii_ok(json.dumps(m, default=str)):
+                if not ascii_ok(json.dumps(m, default=str, ensure_ascii=False)):
                     continue
                 if m["op"] == "read" and not m["wellformed"]:
                     continue
